@@ -10,7 +10,7 @@ namespace WR.C10
 def plain : Style :=
   { ml := .px 0, mr := .px 0, mt := .px 0, mb := .px 0, pl := .px 0, pr := .px 0, pt := .px 0, pb := .px 0,
     bl := 0, br := 0, bt := 0, bb := 0, width := .auto, minW := .auto, maxW := .auto, height := .auto,
-    minH := 0, maxH := none, sizing := .content }
+    minH := .auto, maxH := .auto, sizing := .content }
 
 def doc (bodyKids : List Box) : Box := .mk plain [.mk plain bodyKids]
 
